@@ -104,10 +104,7 @@ def _arrange_band_data(distances, frequencies, qpoints, segment_nqpoints, label_
                     path_connections.append(False)
                 else:
                     path_connections.append(True)
-            if label_pairs[-2][1] != label_pairs[-1][1]:
-                labels += label_pairs[-1]
-            else:
-                labels.append(label_pairs[-1][1])
+            labels += label_pairs[-1]
         else:
             labels += label_pairs[0]
         path_connections += [
